@@ -84,6 +84,8 @@ pub(crate) enum ErrorKind {
     IllegalPowerUnit,
     #[error("the power of a number must be an integer")]
     IllegalPowerNonInteger,
+    #[error("the power is too large for a quantity with a unit")]
+    IllegalPowerTooLarge,
     #[error("error when building tree")]
     TreeError {
         #[source]
